@@ -34,6 +34,7 @@ type dgram struct {
 	id     int
 	kind   string
 	sender string
+	big    int // a valid datagram padded to this many bytes (0: as it comes)
 	port   int
 	b      []byte
 }
@@ -44,6 +45,7 @@ type rec struct {
 }
 
 type sim struct {
+	soak int // > 0: the run starts with that class of skipped datagram by the hundred
 	v4   bool
 	rng  *rand.Rand
 	mu   sync.Mutex
@@ -290,12 +292,59 @@ func (s *sim) validBytes(id int) []byte {
 	return d.ToBytes()
 }
 
+// padTo re-builds the valid datagram b with opaque options so that it is exactly n bytes long
+func (s *sim) padTo(b []byte, id, n int) []byte {
+	if len(b)+8 > n {
+		return b
+	}
+	if !s.v4 {
+		room := n - len(b) - 4
+		pad := append([]byte{0xfd, 0xea, byte(room >> 8), byte(room)}, make([]byte, room)...) // option 65002
+		if b[0] == 12 || b[0] == 13 {
+			return b // (options of a relay go in front of what it relays; left as it is)
+		}
+		return append(append([]byte(nil), b...), pad...)
+	}
+	p, err := dhcpv4.FromBytes(b)
+	if err != nil {
+		return b
+	}
+	for code := 201; code < 224; code++ {
+		cur := len(p.ToBytes())
+		room := n - cur // each further option costs 2 + its length
+		if cur <= 300 || room < 2 {
+			if cur > 300 {
+				break
+			}
+			p.UpdateOption(dhcpv4.OptGeneric(dhcpv4.GenericOptionCode(code), make([]byte, 100))) // get past the 300-byte minimum first
+			continue
+		}
+		l := room - 2
+		if l > 255 {
+			l = 255
+			if room-257 == 1 {
+				l = 254 // never leave a single byte over
+			}
+		}
+		p.UpdateOption(dhcpv4.OptGeneric(dhcpv4.GenericOptionCode(code), make([]byte, l)))
+	}
+	out := p.ToBytes()
+	if len(out) != n {
+		return b
+	}
+	return out
+}
+
 func (s *sim) arrive(kind, sender string, port int) {
 	id := len(s.all) + 1
 	d := &dgram{id: id, kind: kind, sender: sender, port: port}
 	switch kind {
 	case "valid":
 		d.b = s.validBytes(id)
+		if s.rng.Intn(8) == 0 {
+			// a datagram that fills the server's 4096-byte read buffer to the last byte, or all but one (it arrives whole)
+			d.b = s.padTo(d.b, id, 4096-s.rng.Intn(2))
+		}
 	case "undec":
 		if s.v4 {
 			d.b = append(s.validBytes(id)[:240], 53, 9, 1) // option overruns the packet
@@ -325,6 +374,9 @@ func (st step) int(i int) int  { var n int; json.Unmarshal(st[i], &n); return n 
 func (st step) str(i int) string { var n string; json.Unmarshal(st[i], &n); return n }
 
 func (s *sim) pendingReads() int { s.mu.Lock(); defer s.mu.Unlock(); return len(s.q) }
+
+// soakClasses: the datagrams a server skips, by the hundred (whatever a skip path takes must be given back)
+var soakClasses = [][2]string{{"undec", "ip"}, {"empty", "ip"}, {"valid", "nonudp"}, {"undec", "nonudp"}}
 
 func (s *sim) run(t *testing.T, steps []step, randomN int) {
 	if s.loops == 0 {
@@ -467,6 +519,14 @@ func (s *sim) run(t *testing.T, steps []step, randomN int) {
 			doClose()
 		}
 	}
+	if s.soak > 0 {
+		cl := soakClasses[(s.soak-1)%len(soakClasses)]
+		for i := 0; i < 70+s.rng.Intn(70); i++ {
+			s.arrive(cl[0], cl[1], 68)
+			doRead(0)
+			doReturn(0)
+		}
+	}
 	kinds := []string{"valid", "valid", "valid", "undec", "empty", "valid", "undec"}
 	senders := []string{"ip", "noip", "zeroip", "ip", "ip", "noip", "zeroip", "ip", "nonudp"}
 	for i := 0; i < randomN; i++ {
@@ -563,11 +623,13 @@ func TestServerSim(t *testing.T) {
 	defer w.Flush()
 	seed := int64(envInt("VERIF_SEED", 1))
 	id := 0
+	soak := 0
 	one := func(v4 bool, loops int, tag string, steps []step, randomN int) {
 		id++
 		myid := id
+		sk := soak
 		synctest.Test(t, func(t *testing.T) {
-			s := &sim{v4: v4, loops: loops, rng: rand.New(rand.NewSource(seed*7919 + int64(myid)))}
+			s := &sim{v4: v4, loops: loops, soak: sk, rng: rand.New(rand.NewSource(seed*7919 + int64(myid)))}
 			s.run(t, steps, randomN)
 			b, _ := json.Marshal(map[string]any{"id": myid, "v4": v4, "loops": loops, "mode": tag, "ev": s.trace})
 			w.Write(b)
@@ -605,5 +667,12 @@ func TestServerSim(t *testing.T) {
 		}
 		one(i%2 == 0, 1+(i/2)%3/2, "random", nil, n) // every third pair with two goroutines running Serve
 	}
+	// soak runs: each class of skipped datagram by the hundred, on both servers, then ordinary traffic
+	for k := 1; k <= len(soakClasses); k++ {
+		soak = k
+		one(true, 1, "soak", nil, 40)
+		one(false, 1, "soak", nil, 40)
+	}
+	soak = 0
 	fmt.Println("sims", id)
 }
